@@ -76,7 +76,8 @@ def walk_once(case, roots, api, what="walk", bulk=None):
     db = vworld.db_from_case(case["db"])
     cap = 4 * len(db) + 16 + 4 * len(roots)
     agent, client = vworld.make_world(case["proto"], db, request_cap=cap,
-                                      bulk_script=[tuple(p) for p in case.get("bulk_script", [])])
+                                      bulk_script=[tuple(p) for p in case.get("bulk_script", [])],
+                                      early_stop=case.get("early_stop", True))
     try:
         if bulk is None:
             got = vworld.run(_do_walk(client, api, roots))
